@@ -462,7 +462,7 @@ pub fn run(tier: &str, seed: u64, replay: Option<String>) -> i32 {
         level: "exploration".into(),
         evaluations,
         distinct_nontrivial: distinct,
-        rule: "process level: the real hulc2model/thor binaries (built from the working tree) run on a simulated project directory; per case the simulator draws project, tool, --use-extra, directory faults (missing KyG/tbl, extra files, two projects, empty/absent directory, file instead of directory, wrong-case extension, side files only), RUST_LOG, LANG, cwd/path form, hash seed and fake clock; reference = in-process collect_hulc_data on the same directory. In-process level: library conversions of intact and single-edit-damaged projects with fd 1 redirected to a memfd; any byte on fd 1 from a call that returns Ok is a violation. Non-trivial and distinct = distinct (project, tool, flag, fs-fault set, RUST_LOG, path form) tuples for which the library converted or the directory held no project, plus distinct damaged-file hashes the library converted".into(),
+        rule: "process level: the real hulc2model/thor binaries (built from the working tree) run on a simulated project directory; per case the simulator draws project, tool, --use-extra, directory faults (missing / stale KyG and tbl, extra files, two projects, empty/absent directory, file instead of directory, wrong-case extension, side files only, stale output files, odd directory names, free texts with 2-4-byte characters), RUST_LOG, LANG, cwd/path form (also '.', the file itself), relative or absolute -o/-r, hash seed, fake clock and the stdout device (pipe, file, pty, stalled consumer + SIGSTOP/SIGCONT, /dev/full, closed pipe - under the last two only 'no status 0 without the document' is judged); projects = the shipped ones and projects printed by the generator; reference = in-process collect_hulc_data on the same directory. In-process level: library conversions of intact and single-edit-damaged projects with fd 1 redirected to a memfd; any byte on fd 1 from a call that returns Ok is a violation. Non-trivial and distinct = distinct (project, tool, flag, fs-fault set, RUST_LOG, path form) tuples for which the library converted or the directory held no project, plus distinct damaged-file hashes the library converted".into(),
         samples,
         exhaustive: false,
         extra,
